@@ -151,10 +151,11 @@ SPECIAL = ("caller", "kwargs", "varargs")
 class MacroBody(Task):
     kind = "emission"
 
-    def __init__(self, n, d, node_cls_name="Macro", is_async=False):
-        self.n, self.d, self.cls_name, self.is_async = n, d, node_cls_name, is_async
+    def __init__(self, n, d, node_cls_name="Macro", is_async=False, body="abstract", thorough_only=False):
+        self.n, self.d, self.cls_name, self.is_async, self.body_mode = n, d, node_cls_name, is_async, body
+        self.thorough_only = thorough_only
         self.prop = "C06"
-        self.tag = f"[{node_cls_name},n={n},d={d},{'async' if is_async else 'sync'}]"
+        self.tag = f"[{node_cls_name},n={n},d={d},{'async' if is_async else 'sync'}{',body=1' if body == 'one' else ''}]"
         self.name = "C06.emit.macro_body" + self.tag
         self.bound_text = "parameter list length n <= 3 (concrete list; CallBlock n <= 2), names/defaults/body/read-sets symbolic"
 
@@ -173,7 +174,11 @@ class MacroBody(Task):
             args = [emit.make_node(st, N.Name, f"node.args[{i}]") for i in range(n)]
             defs = [emit.make_node(st, N.Expr, f"node.defaults[{i}]", kind="expr") for i in range(d)]
             self.arg_refs, self.def_refs = args, defs
-            return {"args": st.alloc(HList(items=args), initial=True), "defaults": st.alloc(HList(items=defs), initial=True)}
+            f = {"args": st.alloc(HList(items=args), initial=True), "defaults": st.alloc(HList(items=defs), initial=True)}
+            if self.body_mode == "one":
+                # a body of exactly one (arbitrary) statement instead of an abstract statement list: halves the paths
+                f["body"] = st.alloc(HList(items=[emit.make_node(st, N.Stmt, "node.body[0]", kind="stmt")]), initial=True)
+            return f
 
         def pre(st, g, nd):
             # requires: parameter names pairwise distinct (the parser's obligation, C01)
@@ -810,6 +815,8 @@ def native_signatures(w=None):
 # ------------------------------------------------------------------------------------------- tasks
 
 def _macro_body_tasks():
+    """quick tier: Macro n <= 2 (n = 2: sync, one-statement body), CallBlock n <= 1; the remaining shapes (n = 3, async and
+    abstract-body variants of the larger ones, CallBlock n = 2) run in the thorough tier only"""
     out = []
     for cls in ("Macro", "CallBlock"):
         for n in range(0, 4):
@@ -817,9 +824,12 @@ def _macro_body_tasks():
                 continue
             for d in range(0, n + 1):
                 for is_async in (False, True):
-                    if is_async and (n == 3 or (cls == "CallBlock" and n == 2)):
-                        continue  # async only changes the `def` keyword; the largest shapes are run in sync mode
-                    out.append(MacroBody(n, d, cls, is_async))
+                    quick_body = "abstract" if n == 0 else "one"
+                    quick = (n <= 1 and (cls == "Macro" or not is_async)) or (n == 2 and cls == "Macro" and not is_async)
+                    if quick:
+                        out.append(MacroBody(n, d, cls, is_async, body=quick_body))
+                    if n >= 1 and not (is_async and n == 3):
+                        out.append(MacroBody(n, d, cls, is_async, body="abstract" if quick else ("one" if n == 3 else "abstract"), thorough_only=True))
     # longest first (process pool)
     return sorted(out, key=lambda t: -t.n)
 
